@@ -88,7 +88,7 @@ impl PointQuery for Aabb {
 
         if nzero_shifts == DIM {
             for i in 0..DIM {
-                if ls_pt[i] > self.maxs[i] - crate::math::DEFAULT_EPSILON {
+                if ls_pt[i] >= self.maxs[i] - crate::math::DEFAULT_EPSILON {
                     return (proj, FeatureId::Face(i as u32));
                 }
                 if ls_pt[i] <= self.mins[i] + crate::math::DEFAULT_EPSILON {
